@@ -40,19 +40,16 @@ theorem stepNl_total (al : Align) (sw : Float) (gs : Array G) (i : Nat) (g : G) 
     (stepNl al sw gs i g s).total = s.total + 1 := by
   unfold stepNl; simp only []; split <;> (try split) <;> simp
 
-theorem stepHyph_total (al : Align) (sw : Float) (g : G) (s : St) (h : al ≠ .centered) :
+theorem stepHyph_total (al : Align) (sw : Float) (g : G) (s : St) :
     (stepHyph al sw g s).total = s.total + 1 := by
-  unfold stepHyph; cases al <;> simp_all
-
-theorem stepHyph_centered (sw : Float) (g : G) (s : St) : stepHyph .centered sw g s = s := rfl
+  unfold stepHyph; cases al <;> simp
 
 theorem stepCh_total (gs : Array G) (i : Nat) (g : G) (s : St) : (stepCh gs i g s).total = s.total + 1 := by
   unfold stepCh; simp only []
   split <;> split <;> (try split) <;> simp [St.total, St.push, St.inc, sizes, mkPen, mkBox] <;> omega
 
-/-- every glyph adds exactly one to the total Size, except U+00AD / U+200B under `Centered` -/
-theorem step_total (al : Align) (sw : Float) (gs : Array G) (i : Nat) (g : G) (s : St)
-    (h : al = .centered → g.k ≠ .shy ∧ g.k ≠ .zwsp) :
+/-- every glyph adds exactly one to the total Size -/
+theorem step_total (al : Align) (sw : Float) (gs : Array G) (i : Nat) (g : G) (s : St) :
     (step al sw gs i g s).total = s.total + 1 := by
   unfold step
   split
@@ -60,27 +57,24 @@ theorem step_total (al : Align) (sw : Float) (gs : Array G) (i : Nat) (g : G) (s
   · exact stepNl_total ..
   · exact stepNl_total ..
   · exact stepNl_total ..
-  · rename_i hk; exact stepHyph_total _ _ _ _ (fun hc => (h hc).1 hk)
-  · rename_i hk; exact stepHyph_total _ _ _ _ (fun hc => (h hc).2 hk)
+  · exact stepHyph_total ..
+  · exact stepHyph_total ..
   · exact stepCh_total ..
 
 theorem loop_total (al : Align) (sw : Float) (gs : Array G) (l : List G) :
-    ∀ (i : Nat) (s : St), (∀ g ∈ l, al = .centered → g.k ≠ .shy ∧ g.k ≠ .zwsp) →
-      (loop al sw gs i l s).total = s.total + l.length := by
+    ∀ (i : Nat) (s : St), (loop al sw gs i l s).total = s.total + l.length := by
   induction l with
-  | nil => intro i s _; simp [loop]
+  | nil => intro i s; simp [loop]
   | cons g r ih =>
-    intro i s h
+    intro i s
     simp only [loop]
-    rw [ih (i + 1) _ (fun g' hg' => h g' (List.mem_cons_of_mem _ hg'))]
-    rw [step_total al sw gs i g s (h g (List.mem_cons_self ..))]
+    rw [ih (i + 1) _, step_total al sw gs i g s]
     simp; omega
 
 theorem finish_total (al : Align) (sw : Float) (s : St) : (finish al sw s).total = s.total := by
   unfold finish; split <;> simp
 
-theorem toItems_sizes (al : Align) (indent : Float) (gs : List G)
-    (hc : al = .centered → ∀ g ∈ gs, g.k ≠ .shy ∧ g.k ≠ .zwsp) :
+theorem toItems_sizes (al : Align) (indent : Float) (gs : List G) :
     sizes (toItems al indent gs) = gs.length := by
   unfold toItems
   split
@@ -92,13 +86,8 @@ theorem toItems_sizes (al : Align) (indent : Float) (gs : List G)
         ≤ (List.drop (List.takeWhile isSp gs).length gs).length := by
       have := (List.takeWhile_sublist isSp (l := (List.drop (List.takeWhile isSp gs).length gs).reverse)).length_le
       simpa using this
-    have hmid : ∀ g ∈ List.take ((List.drop (List.takeWhile isSp gs).length gs).length -
-        (List.takeWhile isSp (List.drop (List.takeWhile isSp gs).length gs).reverse).length)
-        (List.drop (List.takeWhile isSp gs).length gs), al = .centered → g.k ≠ .shy ∧ g.k ≠ .zwsp := by
-      intro g hg hal
-      exact hc hal g (List.mem_of_mem_drop (List.mem_of_mem_take hg))
     simp only [List.length_drop] at h2
-    split <;> split <;> split <;> simp only [total_push, loop_total _ _ _ _ _ _ hmid] <;>
+    split <;> split <;> split <;> simp only [total_push, loop_total] <;>
       simp [total_mk, sizes, List.length_take, List.length_drop] <;> omega
 
 end Canvas.C16
